@@ -486,7 +486,7 @@ def r01_2(ctx: Ctx):
         if ctor_calls:
             cma_inits += 1
             ok, why = _cma_bounds_ok(ctx, init, ctor_calls)
-            obs.append(ctx.ob("R01.2", init, ctor_calls[0], status=OK if ok else VIOLATION, detail=f"{ci.name}: every CMA-ES strategy is given bounds = [lower column, upper column] of the level's bounds" if ok else f"{ci.name}: {why}", construct=f"{ci.name}:cma-bounds"))
+            obs.append(ctx.ob("R01.2", init, ctor_calls[0], status=OK if ok else INCONCLUSIVE if ok is None else VIOLATION, detail=f"{ci.name}: every CMA-ES strategy is given bounds = [lower column, upper column] of the level's bounds" if ok else f"{ci.name}: {why}", construct=f"{ci.name}:cma-bounds"))
         for f in ctx.prog.functions_in(ci):
             for cs in ctx.res.callsites(f):
                 if cs.external == "scipy.optimize.minimize" and isinstance(cs.node, ast.Call):
@@ -698,42 +698,56 @@ def _affine_ok(ctx, ci, f, e, sn, defs, unit_names=()):
     return False, f"genomes `{norm(e)[:60]}` are not an affine image of a unit-cube sample"
 
 
+def _bounds_pair_ok(b, defs):
+    """(True | False | None, why) for one `bounds` value handed to CMA-ES: [lower column, upper column] of the level's bounds."""
+    r0 = b
+    while isinstance(r0, ast.Name) and r0.id in defs and len(defs[r0.id]) == 1:
+        r0 = defs[r0.id][0]
+    if not (isinstance(r0, (ast.List, ast.Tuple)) and len(r0.elts) == 2):
+        return (False if isinstance(r0, (ast.Constant, ast.Attribute)) else None), f"CMA-ES bounds `{norm(b)}` are not [lower, upper]"
+    cols = []
+    for el in r0.elts:
+        r = el
+        while isinstance(r, ast.Name) and r.id in defs and len(defs[r.id]) == 1:
+            r = defs[r.id][0]
+        while isinstance(r, ast.Call) and norm(r.func) in ("list", "np.array", "np.asarray", "tuple") and len(r.args) == 1:
+            r = r.args[0]
+        t = canon(r)
+        if "[0]" in t and "bounds" in t and "[1]" not in t or t.endswith("bounds[:,0]"):
+            cols.append("lower")
+        elif "[1]" in t and "bounds" in t or t.endswith("bounds[:,1]"):
+            cols.append("upper")
+        else:
+            cols.append("?" + t[:30])
+    if cols != ["lower", "upper"]:
+        definite = sorted(cols) == ["lower", "upper"] or cols[0] == cols[1] or any(isinstance(x, ast.BinOp) for x in ast.walk(r0)) or any(isinstance(el, ast.Constant) for el in r0.elts)
+        return (False if definite else None), f"CMA-ES bounds are [{cols[0]}, {cols[1]}] instead of [lower column, upper column] of the level's bounds"
+    return True, ""
+
+
 def _cma_bounds_ok(ctx, init, ctor_calls):
     defs = local_defs(init)
     for c in ctor_calls:
         opts = next((k.value for k in c.keywords if k.arg == "inopts"), c.args[2] if len(c.args) > 2 else None)
         if opts is None:
             return False, "a CMA-ES strategy is constructed without options (no bounds)"
-        d = opts
-        while isinstance(d, ast.Name) and d.id in defs and len(defs[d.id]) >= 1:
-            cands = [x for x in defs[d.id] if isinstance(x, ast.Dict)]
-            if not cands:
-                return False, f"cannot resolve the options `{norm(opts)}` of a CMA-ES strategy"
-            d = cands[0]
-        if not isinstance(d, ast.Dict):
-            return False, f"options `{norm(opts)}` of a CMA-ES strategy are not a dict literal"
-        b = None
-        for k, v in zip(d.keys, d.values):
-            if isinstance(k, ast.Constant) and k.value == "bounds":
-                b = v
-        if b is None:
-            return False, "the CMA-ES options have no `bounds` entry: CMA-ES samples outside the box"
-        if not (isinstance(b, (ast.List, ast.Tuple)) and len(b.elts) == 2):
-            return False, f"CMA-ES bounds `{norm(b)}` are not [lower, upper]"
-        cols = []
-        for el in b.elts:
-            r = el
-            while isinstance(r, ast.Name) and r.id in defs and len(defs[r.id]) == 1:
-                r = defs[r.id][0]
-            t = canon(r)
-            if "[0]" in t and "bounds" in t and "[1]" not in t or t.endswith("bounds[:,0]"):
-                cols.append("lower")
-            elif "[1]" in t and "bounds" in t or t.endswith("bounds[:,1]"):
-                cols.append("upper")
-            else:
-                cols.append("?" + t[:30])
-        if cols != ["lower", "upper"]:
-            return False, f"CMA-ES bounds are [{cols[0]}, {cols[1]}] instead of [lower column, upper column] of the level's bounds"
+        from .common import dict_alternatives
+
+        alts = dict_alternatives(ctx, init, opts)
+        if alts is None:
+            return None, f"cannot resolve the options `{norm(opts)}` of a CMA-ES strategy"
+        missing = [a for a in alts if "bounds" not in a]
+        maybe = [a for a in alts if isinstance(a.get("bounds"), tuple)]
+        if missing:
+            return False, "on some path the CMA-ES options have no `bounds` entry: CMA-ES samples outside the box"
+        if maybe:
+            return None, "the `bounds` entry of the CMA-ES options is set under a condition this rule does not evaluate"
+        bs = {canon(a["bounds"]): a["bounds"] for a in alts}
+        b = list(bs.values())[0]
+        for b in bs.values():
+            ok_b, why_b = _bounds_pair_ok(b, defs)
+            if not ok_b:
+                return ok_b, why_b
         # the options object must not lose the key later
         for n in body_walk(init.node):
             if isinstance(n, ast.Call) and isinstance(n.func, ast.Attribute) and n.func.attr in ("pop", "clear") and isinstance(opts, ast.Name) and norm(n.func.value) == opts.id:
@@ -908,6 +922,42 @@ def r01_3(ctx: Ctx):
 
     typestate(cfg, [frozenset()], node_fn, edge_fn)
     ret_names = {(n.ast.value if isinstance(n.ast, ast.Return) else n.ast).id for n, _ in bad}
+    # a draw from a distribution truncated to the box instead of a rejection loop: scipy's truncnorm takes its clip points in
+    # STANDARD units, (bound - loc) / scale; handed (bound - loc) the support is loc + (bound - loc) * scale
+    tn_status = None
+    sdefs = dict(local_defs(sn))
+    sdefs.update(local_defs(cr))
+    for n in list(unknown_ret):
+        v = n.ast.value if isinstance(n.ast, ast.Return) else n.ast
+        d = ctx.prog.dotted(v.func, cr.module) if isinstance(v, ast.Call) and isinstance(v.func, (ast.Name, ast.Attribute)) else None
+        if d in ("scipy.stats.truncnorm.rvs", "scipy.stats.truncnorm"):
+            kw = {k.arg: k.value for k in v.keywords if k.arg}
+            a_, b_ = (v.args + [None, None])[:2]
+            a_, b_ = a_ or kw.get("a"), b_ or kw.get("b")
+            loc, scale = kw.get("loc", v.args[2] if len(v.args) > 2 else None), kw.get("scale", v.args[3] if len(v.args) > 3 else None)
+            if a_ is None or b_ is None or loc is None:
+                continue
+            lt, sc = canon(loc, sdefs), (canon(scale, sdefs) if scale is not None else "1")
+            at, bt = canon(a_, sdefs), canon(b_, sdefs)
+            # np.asarray(center, dtype=float) etc. denote the centre itself
+            def strip(t):
+                prev = None
+                while prev != t:
+                    prev = t
+                    t = re.sub(r"np\.(asarray|array)\((\w+)(,dtype=\w+)?\)", r"\2", t)
+                return t
+
+            at, bt, lt = strip(at), strip(bt), strip(lt)
+            std_ok = at in (f"({bp}[:,0]-{lt})/{sc}",) and bt in (f"({bp}[:,1]-{lt})/{sc}",)
+            raw = at == f"{bp}[:,0]-{lt}" and bt == f"{bp}[:,1]-{lt}"
+            if std_ok or (raw and sc == "1"):
+                tn_status = (OK, "")
+                unknown_ret.remove(n)
+            elif raw:
+                tn_status = (VIOLATION, f"sample_normal draws `{norm(v)[:80]}` with clip points `{norm(a_)}` / `{norm(b_)}` that are not divided by the scale `{norm(scale)}`: truncnorm's support is loc + clip * scale, so for a standard deviation above 1 the sampled point lies outside the box")
+    if tn_status is not None and tn_status[0] == VIOLATION:
+        obs.append(ctx.ob("R01.3", cr, cr.node, status=VIOLATION, detail=tn_status[1], construct="rejection-loop"))
+        return obs
     if bad and not any(v in ret_names for _, v in odd_tests):
         st_l = VIOLATION
     elif bad or unknown_ret or n_ret == 0:
@@ -1089,6 +1139,32 @@ class RepairIntervals:
                 return ("other",) if x[0] != "off" else ("off", (0, NEG), (0, POS))
             if fn in ("np.where",) and len(a) == 3:
                 x, y = self.val(a[1], env), self.val(a[2], env)
+                # the branch that keeps an expression is taken where the mask says so: `np.where(g < lower, X, g)` keeps g only
+                # where g >= lower
+                def refine(v, expr, cond, truth):
+                    if v[0] != "off" or not (isinstance(cond, ast.Compare) and len(cond.ops) == 1):
+                        return v
+                    l_, r_, op = cond.left, cond.comparators[0], type(cond.ops[0])
+                    if canon(r_) == canon(expr):
+                        l_, r_, op = r_, l_, {ast.Lt: ast.Gt, ast.Gt: ast.Lt, ast.LtE: ast.GtE, ast.GtE: ast.LtE}.get(op, op)
+                    if canon(l_) != canon(expr):
+                        return v
+                    side = self.val(r_, env)
+                    if not truth:
+                        op = {ast.Lt: ast.GtE, ast.GtE: ast.Lt, ast.Gt: ast.LtE, ast.LtE: ast.Gt}.get(op, op)
+                    lo, hi = v[1], v[2]
+                    if side == ("L",) and op in (ast.GtE, ast.Gt):
+                        lo = (0, 0) if _le(lo, (0, 0)) else lo
+                    if side == ("U",) and op in (ast.LtE, ast.Lt):
+                        hi = (1, 0) if _le((1, 0), hi) else hi
+                    return ("off", lo, hi)
+
+                x, y = refine(x, a[1], a[0], True), refine(y, a[2], a[0], False)
+                for kept, other in ((x, y), (y, x)):
+                    # one branch hands on an expression that is unbounded on a side the mask does not exclude, the other is
+                    # something this interpreter does not bound: whatever that is, the kept side alone leaves the box
+                    if kept[0] == "off" and other[0] == "other" and (kept[1] == (0, NEG) or kept[2] == (0, POS)):
+                        return kept
                 if x[0] == y[0] and x[0] in ("off", "absoff"):
                     lo = x[1] if _le(x[1], y[1]) else y[1]
                     hi = x[2] if _le(y[2], x[2]) else y[2]
